@@ -16,6 +16,19 @@ CLAIMED = {
         note='Coq kernel + vm_compute; hand transcriptions tied to the code by per-run correspondence on generated images x '
              '3 engines; C text, compiler and CPython not modelled; known finding F1 (w=64 top-of-address-space wrap).',
         technique='Coq refinement proofs (engine models = machine definition) + model/implementation correspondence evaluated in Coq'),
+    'C02': dict(
+        category='proof',
+        text='Denotation spec (Spec/DenoteSpec.v) with a proved-sound checker (C02_check_denotes_sound, Qed) that is evaluated '
+             'inside Coq on the real assembler\'s image, segments and label table for every generated primitive program '
+             '(x w in {8,16,32,64} x fjm v0..3), including wflip chains executed on the machine definition; exact '
+             'correspondence with the executable layout model Model/Layout.v; universal theorems for the address/label '
+             'clauses and the emitted-segment invariant.',
+        design_ref='DESIGN.md section 4, C02',
+        note='C02_sound / C02_rejects for the full layout (op words, reserved ranges, chain structure and execution) are not yet '
+             'proved (statements visible as C02_sound_statement / C02_rejects_statement); per-program decisions rest on the '
+             'certified checker plus vm_compute; lexing and LALR parsing are shared with the implementation through the AST '
+             'dump; known findings F16, F17, F18.',
+        technique='Coq-certified per-program checker (soundness theorem) + layout model correspondence + partial universal theorems'),
     'C07': dict(
         category='proof',
         text='Every observable (cause, ops, fault address, output, last-ops list, final in-segment words read back through '
